@@ -123,7 +123,7 @@ func oracleSeq(c *Case, res *Result) []Violation {
 			continue
 		}
 		if tr.Outcome == "panic" {
-			add("panic", tx.Name+" panicked: "+tr.Panic)
+			add(panicClass(tr.Panic), tx.Name+" panicked: "+tr.Panic)
 			return vs
 		}
 		for _, idx := range tx.Create {
